@@ -7,6 +7,7 @@ import (
 	"os"
 	"path/filepath"
 	"sort"
+	"strings"
 	"sync"
 	"time"
 
@@ -177,6 +178,69 @@ func kvConcHistory(rec *trace.Recorder, root string, seed int64, h int, sum *tra
 	sum.Extra["steps"] = sum.Extra["steps"].(int) + len(sc.Choices)
 }
 
+// kvCleanupWindow: the obsolete-file cleanup is parked right before it lists the family directory while a
+// complete flush (table created, closed, committed) runs; the cleanup must not remove that table
+func kvCleanupWindow(rec *trace.Recorder, root string, seed int64, h int, sum *trace.Summary) {
+	w := kvwrap.NewWorld(root, rec)
+	defer w.Drop()
+	rng := rand.New(rand.NewSource(seed))
+	opt := kv.DefaultStoreOption()
+	run := &kvRun{w: w, rec: rec, path: root, opt: opt, rng: rng, famOpt: map[string]kv.FamilyOption{}}
+	rec.Reset(trace.F{"mode": "concurrent", "h": h, "scenario": "cleanup-window"})
+	if err := run.open(); err != nil {
+		sum.Unresolved = append(sum.Unresolved, "open: "+err.Error())
+		return
+	}
+	f, err := run.store.CreateFamily("10", kv.FamilyOption{Merger: unionMerger})
+	if err != nil {
+		sum.Unresolved = append(sum.Unresolved, "family: "+err.Error())
+		return
+	}
+	rec.Emit("Proj", trace.F{"proj": kvProj(run.store, w)})
+	for i := 0; i < 1+rng.Intn(2); i++ {
+		run.flush("10", 1+rng.Intn(3), false)
+	}
+	// the flush runs either right before or right after the directory is listed
+	gateLabel := []string{"before-listdir:", "listdir:"}[h/5%2]
+	parked := make(chan struct{})
+	release := make(chan struct{})
+	var once sync.Once
+	w.Gate = func(label string) {
+		if w.Thread() == "cl" && strings.HasPrefix(label, gateLabel) {
+			once.Do(func() {
+				close(parked)
+				<-release
+			})
+		}
+	}
+	done := make(chan struct{})
+	go func() {
+		w.BindThread("cl")
+		kv.VerifDeleteObsoleteFiles(f)
+		close(done)
+	}()
+	select {
+	case <-parked:
+	case <-done:
+	case <-time.After(5 * time.Second):
+		sum.Unresolved = append(sum.Unresolved, "cleanup did not reach the directory listing")
+		return
+	}
+	w.BindThread("main")
+	run.flushQuiet("10", 1+rng.Intn(3))
+	close(release)
+	<-done
+	w.Gate = nil
+	rec.Emit("Proj", trace.F{"proj": kvProj(run.store, w)})
+	snap := f.GetSnapshot()
+	rec.Emit("SnapAcquire", snapFields("check", int(f.ID()), snap, opt.Levels, true))
+	rec.Emit("SnapRead", snapFields("check", int(f.ID()), snap, opt.Levels, false))
+	snap.Close()
+	rec.Emit("SnapClose", trace.F{"id": "check"})
+	run.closeStore()
+	sum.Extra["schedules"] = sum.Extra["schedules"].(int) + 1
+}
+
 // compactStarted triggers Family.Compact and reports whether a background job was started.
 func compactStarted(f kv.Family) bool {
 	snap := f.GetSnapshot()
@@ -230,7 +294,11 @@ func kvConcMain(args []string) int {
 	for h := 0; h < *nh; h++ {
 		root := filepath.Join(*scratch, fmt.Sprintf("c%d", h), "store")
 		_ = os.MkdirAll(filepath.Dir(root), 0o755)
-		kvConcHistory(rec, root, rng.Int63(), h, sum)
+		if h%5 == 4 {
+			kvCleanupWindow(rec, root, rng.Int63(), h, sum)
+		} else {
+			kvConcHistory(rec, root, rng.Int63(), h, sum)
+		}
 		os.RemoveAll(filepath.Dir(root))
 	}
 	_ = rec.Close()
